@@ -227,3 +227,18 @@ _H3 = {
 for _pid, _extra in _H3.items():
     _ref, _tech, _text, _note = CHECKS[_pid]
     CHECKS[_pid] = (_ref, _tech, _text + _extra, _note)
+
+# rounds g2 / r7 (DESIGN 28.10)
+_R7 = {
+    "C03": " The completion mailbox stores the error before it releases the waiter, and the waiter reads it after it was released.",
+    "C06": " The completion mailbox stores the error before it releases the waiter (publication order inside CompletionEvent).",
+    "C07": " An operation waiting for its own recorded timer never parks without a time; a replayed wait parks until the earlier of its recorded end and its full duration from now.",
+    "C09": " Quantities derived on both sides of the policy (failure percentage) are derived from the same counters, the classifier's counters are bound to the statuses "
+           "their names say, and a branch outcome is published, counted and decided on inside one critical section.",
+    "C12": " Every failure of the step function reaches the retry strategy, except the one family let through on purpose (ExecutionError).",
+    "C19": " The error handed to acquirers of a broken lock is built without unprotected user code (__str__ / __bool__ of the holder's exception).",
+    "C20": " An emission guard in a writer looks at the emitted value (or an object it is reached through) and at nothing else.",
+}
+for _pid, _extra in _R7.items():
+    _ref, _tech, _text, _note = CHECKS[_pid]
+    CHECKS[_pid] = (_ref, _tech, _text + _extra, _note)
